@@ -11,7 +11,7 @@ def run(ctx):
     except ImportError:
         pass
     return run_arena_property(ctx, ["BumpProof.Props.C01", "BumpProof.Props.Hist@C01", "BumpProof.Props.Targets@C01"],
-        runs_quick=[('general', 120, 100), ('prepared', 40, 100), ('scopes', 40, 100)],
+        runs_quick=[('general', 500, 100), ('prepared', 150, 100), ('scopes', 150, 100)],
         runs_thorough=[('general', 6000, 200), ('prepared', 2000, 200), ('scopes', 2000, 200), ('faults', 2000, 200)],
         fields=(0, 2, 5), extra_oracles=(),
         note='live blocks valid/aligned/disjoint: step theorems on the arena model + address-exact correspondence + interval oracle on the implementation')
